@@ -110,6 +110,7 @@ type GenesisOptions struct {
 	RtMinPool          uint16   // MinPoolSize scheduling constraint (default = group size)
 	DebondingInterval  uint64   // staking debonding interval in epochs (default 1)
 	RtFunded           bool     // account 1 holds a 700-unit delegation to the runtime's own account (needed for runtime governance)
+	SlashAmount        uint64   // amount slashed for consensus equivocation (default 300); a huge value wipes an escrow account
 	RtRoundTimeout     int64    // executor round timeout in blocks (default 5)
 	RtTwoVersions      bool     // the runtime has a second deployment (version 1.0.0) valid from epoch 3; node 1 is registered for the old version only
 	Prefix             []string // letter names executed (one block each) before the explored history starts: part of the initial state (interpreted by the engines, not by Genesis)
@@ -340,7 +341,7 @@ func Genesis(k *Keys, o GenesisOptions) (*genesis.Document, error) {
 				MaxBoundSteps:      4,
 			},
 			Slashing: map[staking.SlashReason]staking.Slash{
-				staking.SlashConsensusEquivocation: {Amount: q(300), FreezeInterval: 1},
+				staking.SlashConsensusEquivocation: {Amount: q(slashAmount(o)), FreezeInterval: 1},
 				staking.SlashConsensusLightClientAttack: {Amount: q(250), FreezeInterval: 1},
 			},
 			GasCosts: transaction.Costs{
@@ -482,4 +483,11 @@ func rtRoundTimeout(o GenesisOptions) int64 {
 		return o.RtRoundTimeout
 	}
 	return 5
+}
+
+func slashAmount(o GenesisOptions) uint64 {
+	if o.SlashAmount > 0 {
+		return o.SlashAmount
+	}
+	return 300
 }
